@@ -60,7 +60,9 @@ def literal(src, name, cls=None):
 # ('var', name) ('int', k) ('bin', op, a, b) ('neg', a) ('cmp', op, a, b)
 # ('and', a, b) ('or', a, b) ('not', a) ('ite', c, a, b)
 
-def lean_expr(e):
+def lean_expr(e, typed=True):
+    if not typed:
+        return _lean_expr_generic(e)
     k = e[0]
     if k == "var":
         return e[1]
@@ -90,12 +92,32 @@ def lean_expr(e):
     raise ExtractError("cannot print %r" % (e,))
 
 
+def _lean_expr_generic(e):
+    """ring expressions over an arbitrary scalar type (no division, no constants but 0/1)"""
+    k = e[0]
+    if k == "var":
+        return e[1]
+    if k == "int" and e[1] in (0, 1):
+        return str(e[1])
+    if k == "neg":
+        return "(-%s)" % _lean_expr_generic(e[1])
+    if k == "bin" and e[1] in "+-*":
+        return "(%s %s %s)" % (_lean_expr_generic(e[2]), e[1], _lean_expr_generic(e[3]))
+    raise ExtractError("expression outside the generic ring subset: %r" % (e,))
+
+
 class SymExec:
-    def __init__(self, inputs, attr_map=None):
-        """inputs: names treated as free Int variables; attr_map: {'config.size': 'size'}"""
+    def __init__(self, inputs, attr_map=None, cell_map=None):
+        """inputs: names treated as free variables; attr_map: {'config.size': 'size'};
+        cell_map: {'self.data[N, M]': 'dNM'} array cells treated as variables (the caller is
+        responsible for knowing that distinct keys denote distinct cells)"""
         self.env = {n: ("var", n) for n in inputs}
         self.attr_map = attr_map or {}
+        self.cell_map = cell_map or {}
+        for v in self.cell_map.values():
+            self.env[v] = ("var", v)
         self.ignored = []
+        self.guards = []      # conditions under which the code raises
 
     # expressions
     def ev(self, n, env):
@@ -110,6 +132,11 @@ class SymExec:
             if isinstance(v, list):
                 raise ExtractError("list %s used as a number" % n.id)
             return v
+        if isinstance(n, ast.Subscript):
+            s = ast.unparse(n)
+            if s in self.cell_map:
+                return env[self.cell_map[s]]
+            raise ExtractError("unknown array cell %s" % s)
         if isinstance(n, ast.Attribute):
             s = ast.unparse(n)
             if s in self.attr_map:
@@ -154,6 +181,20 @@ class SymExec:
             if isinstance(s, ast.Expr) and isinstance(s.value, ast.Constant) and isinstance(s.value.value, str):
                 continue  # docstring
             if isinstance(s, ast.Pass):
+                continue
+            if isinstance(s, ast.If) and len(s.body) == 1 and isinstance(s.body[0], ast.Raise) and not s.orelse:
+                self.guards.append(self.ev(s.test, env))
+                continue
+            if isinstance(s, ast.Assign) and len(s.targets) == 1 and isinstance(s.targets[0], ast.Subscript) \
+                    and ast.unparse(s.targets[0]) in self.cell_map:
+                env[self.cell_map[ast.unparse(s.targets[0])]] = self.ev(s.value, env)
+                continue
+            if isinstance(s, ast.AugAssign) and isinstance(s.target, ast.Subscript) and ast.unparse(s.target) in self.cell_map:
+                nm = self.cell_map[ast.unparse(s.target)]
+                ops = {ast.Add: "+", ast.Sub: "-", ast.Mult: "*"}
+                if type(s.op) not in ops:
+                    raise ExtractError("augmented operator outside the subset")
+                env[nm] = ("bin", ops[type(s.op)], env[nm], self.ev(s.value, env))
                 continue
             if isinstance(s, ast.Assign):
                 if len(s.targets) != 1 or not isinstance(s.targets[0], ast.Name):
